@@ -27,13 +27,18 @@ class TableDist(DelayDistribution):
     table: jax.Array
     idx: jax.Array
     rng: jax.Array
+    seeded: bool = struct.field(pytree_node=False, default=False)
 
     @classmethod
-    def create(cls, ticks):
+    def create(cls, ticks, seeded=False):
         return cls(table=jnp.array([t * T for t in ticks], dtype=jnp.float32), idx=jnp.array(0, dtype=jnp.int32),
-                   rng=jnp.zeros((2,), dtype=jnp.uint32))
+                   rng=jnp.zeros((2,), dtype=jnp.uint32), seeded=bool(seeded))
 
-    def reset(self, rng): return self.replace(idx=jnp.array(0, dtype=jnp.int32), rng=jnp.zeros((2,), dtype=jnp.uint32))
+    def reset(self, rng):
+        # seeded tables start at an offset that is a function of the key the runtime hands to reset(): like rex's own stochastic distributions,
+        # the delay stream then depends on the initial graph state's rng (and on nothing else) - used for implementation-vs-implementation comparisons only
+        r = jnp.asarray(rng).reshape(-1)[-2:].astype(jnp.uint32) if self.seeded else jnp.zeros((2,), dtype=jnp.uint32)
+        return self.replace(idx=jnp.array(0, dtype=jnp.int32), rng=r)
 
     def sample(self, shape=None):
         n = 1 if shape is None else (shape if isinstance(shape, int) else shape[0])
@@ -143,7 +148,7 @@ class Probe(BaseNode):
 def build(cfg):
     N = {}
     for n, nd in cfg["nodes"].items():
-        N[n] = Probe(name=n, rate=64 // nd["period"], delay=nd["exp"] * T, delay_dist=TableDist.create(nd["delays"]),
+        N[n] = Probe(name=n, rate=64 // nd["period"], delay=nd["exp"] * T, delay_dist=TableDist.create(nd["delays"], seeded=cfg.get("seeded_delays", False)),
                      advance=nd["advance"],
                      scheduling=const.Scheduling.FREQUENCY if nd["sched"] == "FREQ" else const.Scheduling.PHASE, nid=nd["nid"])
         N[n].adaptive = bool(nd.get("adaptive", False))
@@ -151,7 +156,7 @@ def build(cfg):
         N[n].adaptive_params = bool(cfg.get("adaptive_params", False))
         N[n].slow_startup = float(cfg.get("slow_startup", 0)) if n == sorted(cfg["nodes"])[0] else 0
     for c, cc in cfg["conns"].items():
-        N[cc["in"]].connect(N[cc["out"]], blocking=cc["blocking"], delay=cc["exp"] * T, delay_dist=TableDist.create(cc["delays"]),
+        N[cc["in"]].connect(N[cc["out"]], blocking=cc["blocking"], delay=cc["exp"] * T, delay_dist=TableDist.create(cc["delays"], seeded=cfg.get("seeded_delays", False)),
                             window=cc["window"], skip=cc["skip"],
                             jitter=const.Jitter.BUFFER if cc["jitter"] == "BUFFER" else const.Jitter.LATEST)
     return N
@@ -254,7 +259,7 @@ class Gate:
 
 def run_history(job):
     """job['history'] = list of episodes, each a list of user calls from reset/run/step/stop; optional job['gate']"""
-    cfg = job["cfg"]; rec = job.get("record", dict(params=False, rng=False, inputs=True, state=True, output=True))
+    cfg = dict(job["cfg"], **job.get("cfg_over", {})); rec = job.get("record", dict(params=False, rng=False, inputs=True, state=True, output=True))
     N = build(cfg); nph, cph = phases(cfg, N)
     clock = const.Clock.SIMULATED if job.get("clock", "sim") == "sim" else const.Clock.WALL_CLOCK
     rtf = job.get("rtf", 0)
@@ -337,7 +342,7 @@ def run_wallclock_stamp(job):
 def run_job(job):
     if job.get("kind") == "wallclock_stamp": return run_wallclock_stamp(job)
     if "history" in job: return run_history(job)
-    cfg = job["cfg"]; rec = job.get("record", dict(params=False, rng=False, inputs=True, state=True, output=True))
+    cfg = dict(job["cfg"], **job.get("cfg_over", {})); rec = job.get("record", dict(params=False, rng=False, inputs=True, state=True, output=True))
     N = build(cfg)
     nph, cph = phases(cfg, N)
     clock = const.Clock.SIMULATED if job.get("clock", "sim") == "sim" else const.Clock.WALL_CLOCK
